@@ -195,13 +195,15 @@ class _ReadSourceGenerator:
                 if size is None:
                     raise TypeError(f"Unsupported type for bit field: {field_type}")
 
-                if not prev_was_bits:
-                    prev_bits_type = field_type
-                    prev_was_bits = True
+                prev_was_bits = True
 
                 if bits_remaining == 0 or prev_bits_type != field_type:
-                    bits_remaining = (size * 8) - field.bits
+                    # This field opens a new storage unit
+                    prev_bits_type = field_type
+                    bits_remaining = size * 8
                     bits_rollover = True
+
+                bits_remaining -= field.bits
 
                 yield from flush()
                 yield from align_to_field(field)
